@@ -101,6 +101,7 @@ func genQCfg(rc *RunCtx) QCfg {
 		c.IDClockDrift = r.Pick(0, 3, 16, 200)
 	case "C08":
 	}
+	c.E2E = NewPRNG(rc.Seed^0xe2e).Chance(1, 5) // own stream
 	// names that only differ in where a separator stands: topic "t0" with channel "c0", and a topic called
 	// "t0.c0" / "t0_c0" / "t0-c0" (every character a name may contain besides letters and digits) - two
 	// queues that must not share anything, whatever a file or registry key is derived from their names
